@@ -3,6 +3,8 @@ package verifsim
 import (
 	"strings"
 
+	"google.golang.org/protobuf/proto"
+
 	"google.golang.org/protobuf/reflect/protoreflect"
 )
 
@@ -111,7 +113,10 @@ type methodInfo struct {
 var simMethods = []methodInfo{
 	{"Unary", false, false, false}, {"UnaryNSE", false, false, true}, {"ClientStream", true, false, false},
 	{"ServerStream", false, true, false}, {"Bidi", true, true, false},
+	{"RestAll", false, false, false}, {"RestAllNSE", false, false, true}, // bound with POST /sim/v1/all{,nse} body "*"
 }
+
+func isRestBound(method string) bool { return method == "RestAll" || method == "RestAllNSE" }
 
 func genHeaderSet(c *Chooser, n int) [][2]string {
 	names := []string{"X-App", "x-lower", "X-Multi", "X-Data-Bin", "Authorization", "X-Trace-Id", "Cookie", "X-Empty", "Message", "X-Custom-Bin"}
@@ -195,6 +200,35 @@ func genScenario(c *Chooser, o ScenOpts) *Plan {
 	if rpc == nil {
 		return nil
 	}
+	if isRestBound(rpc.Client.Method) && c.Prob(0.5) {
+		// only bound methods can be served by a REST backend
+		if c.Bool() {
+			svc.Protocols = []string{ProtoREST}
+		} else {
+			svc.Protocols = append(append([]string{}, svc.protocols()...), ProtoREST)
+		}
+	}
+	// a fault-free scenario stays under the configured limit in every encoding (JSON escaping can be 6x the binary
+	// form); limits themselves are C10's subject
+	largest := 0
+	for _, m := range rpc.Client.Msgs {
+		largest = maxInt(largest, len(m.Data))
+	}
+	for _, m := range rpc.Backend.Resp.Msgs {
+		largest = maxInt(largest, len(m.Data))
+	}
+	for uint64(svc.MaxMsg) < uint64(largest)*8+4096 {
+		svc.MaxMsg *= 2
+	}
+	if largest > 2048 {
+		// keep the number of pieces (scheduler steps) of a large body in the hundreds
+		k := largest/512 + 1
+		for _, sizes := range [][]int{rpc.Client.Deliveries, rpc.Backend.ReadSizes, rpc.Backend.Resp.WriteSizes} {
+			for i := range sizes {
+				sizes[i] *= k
+			}
+		}
+	}
 	p := &Plan{Config: ConfigPlan{Services: []ServicePlan{svc}}, RPCs: []RPCPlan{*rpc}, Sched: SchedPlan{Policy: "seq"}, Pool: PoolPlan{Policy: "lifo"}}
 	if o.Segment {
 		p.Sched = genSched(c)
@@ -207,7 +241,7 @@ func genScenario(c *Chooser, o ScenOpts) *Plan {
 func genRPC(c *Chooser, o ScenOpts) *RPCPlan {
 	forms := o.Forms
 	if forms == nil {
-		forms = []string{FormGRPC, FormGRPCWeb, FormConnectStream, FormConnectUnary, FormConnectGet}
+		forms = []string{FormGRPC, FormGRPCWeb, FormConnectStream, FormConnectUnary, FormConnectGet, FormREST}
 	}
 	form := forms[c.Intn(len(forms))]
 	var cands []methodInfo
@@ -224,6 +258,10 @@ func genRPC(c *Chooser, o ScenOpts) *RPCPlan {
 			}
 		case FormConnectStream:
 			if !streaming {
+				continue
+			}
+		case FormREST:
+			if !isRestBound(m.Name) {
 				continue
 			}
 		}
@@ -272,6 +310,18 @@ func genRPC(c *Chooser, o ScenOpts) *RPCPlan {
 	}
 	for i := 0; i < nreq; i++ {
 		cp.Msgs = append(cp.Msgs, MsgSpec{Data: canonBytes(genMessage(c, md.Input(), mo, 0)), Compressed: c.Prob(0.6)})
+	}
+	if form == FormREST {
+		cp.Codec, cp.ShortCT = "json", false
+		cp.HTTPMethod = "POST"
+		cp.Path = "/sim/v1/all"
+		if m.Name == "RestAllNSE" {
+			cp.Path = "/sim/v1/allnse"
+		}
+		rm := newMessageFor(md.Input())
+		_ = proto.Unmarshal(cp.Msgs[0].Data, rm)
+		cp.RestJSON, _ = refMarshal("json", rm)
+		cp.Msgs[0].Compressed = true
 	}
 	bp := BackendPlan{}
 	nresp := 1
